@@ -24,6 +24,7 @@ InflateR(bytes) == PrimCall("inflate", <<bytes>>)          \* [ok, out]
 Inflate(bytes) == InflateR(bytes).out
 \* rows (by 0-based index, `rowlen` bytes each) of a zlib stream - or of the bytes themselves when ~z: [ok, total, rows]
 InflateRows(bytes, rowlen, indices, z) == PrimCall("inflate-rows", <<bytes, rowlen, indices, z>>)
+CRC32(bytes)   == PrimCall("crc32", <<bytes>>)       \* four big-endian bytes
 MD5(bytes)     == PrimCall("md5", <<bytes>>)
 \* MD5 applied `times` times, each time to the first n bytes of the previous value (the loop itself, nothing else)
 MD5Times(bytes, times, n) == IF times = 0 THEN bytes ELSE PrimCall("md5-times", <<bytes, times, n>>)
